@@ -25,6 +25,10 @@ claimed = {
    text='Enumerated interrupt delivery points: for 8 loop shapes Interp.Interrupt is delivered before every executed statement (from the evaluating goroutine, from another goroutine, doubled, from inside a compiled call, with Ctrl+C-enters-debugger, between evaluations). The executor must take the interrupt within 64 executed statements (else the seam aborts the run and reports it), the evaluation must end with the interrupt panic (or enter the debugger), the next evaluation must not see a stale flag, and the C12 battery must equal a fresh interpreter.',
    note='Runs without the race detector (the async flag store is an intentional benign race). Bound of 64 statements is a budget from the property text. Fixed loop shapes only.',
    technique='deterministic simulation: exhaustive interrupt-point enumeration through the statement seam + bounded-progress monitor + battery vs fresh interpreter'),
+ 'C17': dict(level='exploration', design='3.8',
+   text='The nondeterminism this property depends on - Go map iteration order inside base/dep - is put behind a seam at check time: every range over a map in the package is rewritten on a scratch copy (go/packages + go/ast) into a loop over keys permuted by the choice source and compiled in with go build -overlay (/repo untouched, regenerated from the current tree on every run). Seeded dependency graphs over 2..9 (thorough 12) declarations are rendered as source with references at several block depths and shadowing parameters/results/locals, and sorted under 1 canonical + 12 seeded iteration orders. Oracles: identical output under all orders; every name once; dependencies (known by construction) first or a forward declaration of a cycle type; exact reference order for acyclic inputs; phase split; declaration-loop error iff a cycle without types.',
+   note='Free names are known by construction of the generator; no second free-variable analysis is trusted. Single-name declarations only (no multi-name var, iota groups, methods). For type cycles only determinism and ordering constraints are checked.',
+   technique='deterministic simulation: build-time seam over map iteration order (overlay rewrite) + seeded iteration schedules + reference order known by construction'),
  'C19': dict(level='exploration', design='3.9',
    text='A second interactive party is simulated: at every debugger stop a simulated user draws the next command (step/next/finish/continue and abbreviations, empty line = repeat, print, vars, backtrace, unknown command, end of input) from the choice list, through (A) the real fast/debug.Debugger reading a simulated command stream and writing to a captured Stdout or (B) a direct fast.Debugger implementation. The statement seam records every executed statement (call depth, line) of the same run as ground truth; a stop-rule model replays stops, commands and statements in order and must agree; the program\'s results must equal the undebugged run and the native twin (transparency); runaway sessions are cut by a statement budget and reported.',
    note='One fixed program template with seeded behaviour. After end of input on the command stream the debugger continues (documented). Trusted: the Fileset line mapping used to match stops to statements.',
